@@ -233,7 +233,9 @@ static bool itemAt(const std::vector<uint64_t>& counts, uint64_t k, Item& out) {
 		slot->part = it.part;
 		slot->index = it.idx;
 		slot->phase = 1;
+		alarm(120); // a generator that does not return is a harness fault (reported as such), not an endless check
 		Plan plan = makePlan(cfg, part, it.idx);
+		alarm(0);
 		slot->phase = 2;
 		RunResult r = runPlan(fam, plan, false, slot);
 		slot->phase = 3;
